@@ -11,6 +11,9 @@ Decided (structural):
  R3 K1  Session::new seeds base_facts from Storage::fact_cache() (the braided state of all heads).
  R4 K5  query/query_prefix consult the session overlay (current_facts) before/merged with
         base_facts: both fields are read in each.
+ R5 K1  SessionPerspective::revert restores by replay: the log (entries carry only the new value) is
+        truncated to the checkpoint, the overlay map is cleared before any other mutation, every
+        remaining log entry is re-inserted, nothing is removed slot-wise, and the result is installed.
 Not decided: overlay/merge iterator equals the model map (value-level)."""
 from rules.core import pat, k4
 
@@ -109,3 +112,77 @@ def run(F, rep, tier):
             rep.check(reads == {"current_facts", "base_facts"}, "SessionPerspective::%s|reads-both-layers" % f.name, "K5 sibling agreement",
                       "%s reads the session overlay and the committed base facts" % f.name, site=f.site())
     rep.floor("SessionPerspective query fns", n, 2)
+    revert_rules(F, rep)
+
+
+MAP_MUTATORS = {"insert", "entry", "remove", "remove_entry", "retain", "get_mut", "extend", "append", "pop_first", "pop_last", "split_off",
+                "first_entry", "last_entry", "values_mut", "iter_mut", "extract_if", "get_or_insert_with", "index_mut"}
+
+
+def revert_rules(F, rep):
+    """R5: SessionPerspective::revert restores the overlay by replay from empty."""
+    f = F.fn("<aranya_runtime::client::session::SessionPerspective as aranya_runtime::storage::Revertable>::revert")
+    # preconditions of the rule: the log has no previous values and the checkpoint is only an index
+    cp = F.adt("aranya_runtime::storage::Checkpoint")
+    sess = F.adt("aranya_runtime::client::session::Session")
+    flds = {x["name"]: x["ty"] for x in sess["variants"][0]["fields"]} if sess else {}
+    log_ty = flds.get("fact_log", "")
+    pre = cp is not None and [x["name"] for x in cp["variants"][0]["fields"]] == ["index"] and log_ty.count("Option<") == 1 and "current_facts" in flds
+    if not pre:
+        rep.anchor_missing("session fact log of (name, keys, new value) entries with an index-only Checkpoint (the replay rule for revert presupposes it; log type: %s)" % log_ty[:120])
+        return
+    site = f.site()
+    DER = ("Arc::get_mut", "Arc::make_mut", "Option::map_or_else", "mem::take", "Option::unwrap_or_default", "Option::unwrap_or_else", "Deref::deref", "DerefMut::deref_mut",
+           "Entry::or_default", "BTreeMap::entry", "Entry::or_insert_with", "Arc::new", "Default::default")
+
+    def overlay(o):
+        if o is None or o.place is None:
+            return False
+        og = f.origins(o, through_calls=DER)
+        return "field:current_facts" in og or bool(set(f.backward_sources(o.place.local, through_calls=DER)[0]) & ovl)
+
+    # locals holding the overlay: sources of what is stored into current_facts
+    ovl = set()
+    for s in f.field_stores("current_facts"):
+        for o in s.operands():
+            if o.place is not None:
+                ovl |= set(f.backward_sources(o.place.local, through_calls=DER)[0])
+    trunc = [c for c in f.calls if c.name in ("truncate",) and "field:fact_log" in f.origins(c.args[0], through_calls=()) and "field:index" in f.origins(c.args[1], through_calls=())]
+    oks = pat.ok_returns(f)
+    eq = [c for c in f.cmp_switches() if c["op"] in ("Eq", "eq") and {"field:index"} <= (f.origins(c["a"], through_calls=()) | f.origins(c["b"], through_calls=()))]
+    early = set()
+    for c in eq:
+        if c.get("eq") is not None:
+            early |= f.dominated_region(c["eq"])
+    late_oks = [s for s in oks if s.bb not in early]
+    rep.check(len(trunc) == 1 and bool(late_oks) and all(f.dominates(trunc[0].bb, s.bb) for s in late_oks), "revert|log-truncated-to-checkpoint", "K1 must-pass-through",
+              "fact_log.truncate(checkpoint.index) dominates every successful return except the `index == len` early return",
+              "SessionPerspective::revert can return Ok without truncating the fact log to the checkpoint", site)
+    clears = [c for c in f.calls if c.name == "clear" and overlay(c.args[0])]
+    muts = [c for c in f.calls if c.name in MAP_MUTATORS and c.self_ty and "BTreeMap" in c.self_ty and overlay(c.args[0])]
+    fresh = False
+    ok = bool(clears) and all(any(f.dominates(k.bb, m.bb) for k in clears) for m in muts) and all(any(f.dominates(k.bb, s.bb) for k in clears) for s in late_oks)
+    rep.check(ok, "revert|overlay-rebuilt-from-empty", "K1 must-pass-through",
+              "the overlay map is cleared before any other mutation of it, on every non-trivial path to Ok (%d mutating calls)" % len(muts),
+              "SessionPerspective::revert edits the existing overlay instead of rebuilding it from empty: the log records only new values, so a slot overwritten by the reverted operation cannot be restored this way", site)
+    removes = [c for c in muts if c.name in ("remove", "remove_entry", "retain", "pop_first", "pop_last", "split_off", "extract_if")]
+    rep.check(not removes, "revert|no-removal-from-overlay", "K3 who-may-call", "revert never removes slots from the overlay (it replays the log prefix)",
+              "SessionPerspective::revert removes overlay slots (%s): a removed slot falls back to the committed base instead of the session's earlier write" % ", ".join(sorted({c.name for c in removes})), site)
+    # replay loop
+    nx = [c for c in f.calls if c.is_("Iterator::next") and "field:fact_log" in f.origins(c.args[0], through_calls="*")]
+    ins = [c for c in f.calls if c.name == "insert" and c.self_ty and "BTreeMap" in c.self_ty and overlay(c.args[0])]
+    ok = len(nx) == 1 and bool(ins) and bool(trunc)
+    if ok:
+        ok = f.dominates(trunc[0].bb, nx[0].bb)
+        for c in ins:
+            vals = f.origins(c.args[2], through_calls=("Clone::clone",)) if len(c.args) > 2 else set()
+            ok = ok and "call:next" in vals and nx[0].bb in f.reachable(c.bb)
+        oe = f.outcome_edges(nx[0])
+        ok = ok and "None" in oe and all(f.dominates(oe["None"][1], s.bb) for s in late_oks)
+    rep.check(ok, "revert|replays-log-prefix", "K1 must-pass-through",
+              "after the truncation every remaining log entry is re-inserted (value from the log) and Ok is returned only when the log is exhausted",
+              "SessionPerspective::revert does not replay the whole remaining fact log into the overlay", site)
+    st = f.field_stores("current_facts")
+    if st:
+        ok = all(any(f.dominates(k.bb, s.bb) for k in clears) for s in st) and all(any(f.dominates(s.bb, r.bb) for s in st) for r in late_oks)
+        rep.check(ok, "revert|overlay-installed", "K1 must-pass-through", "the rebuilt map is stored into current_facts before Ok", site=site)
